@@ -912,6 +912,27 @@ def rule_loop_retry(ctx):
                           'queue and no other thread syncing it spins forever', where=ctx.where(b.nid, b.blocks[h]['term'].get('line')),
                           expected='apply_reads_writes_if_needed (-> Housekeeper::try_sync) inside the loop, before try_send')
             # op retained on Full: the value sent in the next iteration derives from the Full payload
+        # every caller hands the scheduler the cache's own housekeeper (the retry loop makes progress only through it): a literal None turns the
+        # loop into a spin on a full queue
+        hk_params = [i for i in range(1, b.argc + 1) if 'Housekeeper' in b.local_ty(i)['s']]
+        for hp in hk_params:
+            for c_ in sorted({(prog.bodies[x].root or x) if prog.bodies[x].kind == 'closure' else x for x in prog.callers().get(b.nid, ())}):
+                try:
+                    cps = ctx.symex(inline_depth=1, loop_visits=2, inline_pred=lambda n_, bb, d: False).run(c_)
+                except Exception:
+                    continue
+                seen_sites = set()
+                for p in cps:
+                    for e in p.events:
+                        if e[0] == 'call' and e[1] == b.nid and len(e[2]) >= hp and (e[3], fmt(e[2][hp - 1])) not in seen_sites:
+                            seen_sites.add((e[3], fmt(e[2][hp - 1])))
+                            a_ = e[2][hp - 1]
+                            okh = any(isinstance(x, tuple) and x and x[0] == 'fld' and 'housekeeper' in str(x[2]) for x in subterms(a_))
+                            r.instance(function=c_, passes_housekeeper=fmt(a_)[:50], is_the_caches_own=okh)
+                            if not okh:
+                                r.violate(c_, 'retry-without-housekeeping', 'housekeeper-arg', '%s calls the write scheduler with `%s` instead of the cache\'s housekeeper: with a full write queue '
+                                          'nobody runs the maintenance and the retry loop spins forever' % (c_, fmt(a_)[:50]), where=ctx.where(c_, e[3]),
+                                          expected='self.base.housekeeper.as_ref()')
         # a write op is never given up: every normal return of the scheduler has seen its try_send succeed (Ok), or reports the error
         from .symex import PathLimit as _PL, RESULT as _RES
         try:
